@@ -16,7 +16,7 @@ use serde::{Deserialize, Serialize};
 pub struct C08;
 
 pub const CONTENTS: &[&str] = &["", "a\n", "hello world\n", "print('x')\n", "\u{1}\u{2}binary"];
-pub const FILES: &[&str] = &["foo.py", "bar", "a", "sub/x", "sub/y.txt", "out.tar"];
+pub const FILES: &[&str] = &["foo.py", "bar", "a", "sub/x", "sub/y.txt", "out.tar", "payload.link", "sub/x.link"];
 
 #[derive(Clone, Debug, Serialize, Deserialize, PartialEq, Eq)]
 pub enum Op {
@@ -269,7 +269,7 @@ pub fn build(spec: &Spec) -> World {
 fn insp_rules() -> BoxedStrategy<Vec<RuleSpec>> {
     let pat = prop_oneof![
         4 => (0..FILES.len()).prop_map(|i| FILES[i].to_string()),
-        2 => Just("*".to_string()), 1 => Just("sub/*".to_string()), 1 => Just("*.py".to_string()), 1 => Just("ran-*".to_string()), 1 => Just("?".to_string()),
+        2 => Just("*".to_string()), 1 => Just("sub/*".to_string()), 1 => Just("*.py".to_string()), 1 => Just("ran-*".to_string()), 1 => Just("?".to_string()), 1 => Just("*.link".to_string()),
     ];
     let from = prop_oneof![Just("step0".to_string()), Just("step1".to_string()), Just("inspect0".to_string()), Just("absent".to_string())];
     let rule = prop_oneof![
